@@ -146,9 +146,15 @@ def cmdNick (c : Ctx) (sid : Id) (m : IrcMsg) : Res Ctx := do
     return emit c ⟨some oldPrefix, "NICK", [nick]⟩ (rcUser sid ++ rc ++ rcServices c.st)
   maybeLogin c sid m
 
+/-- `maxUserLen` -/
+def maxUserLen : Nat := 30
+
+/-- `truncateUsername`: at most `maxUserLen` characters -/
+def truncateUsername (u : String) : String := takeChars u maxUserLen
+
 def cmdUser (c : Ctx) (sid : Id) (m : IrcMsg) : Res Ctx := do
   let u ← param m 0
-  let c ← modS c sid fun s => updateIrcPrefix { s with username := u, realname := m.trailing }
+  let c ← modS c sid fun s => updateIrcPrefix { s with username := truncateUsername u, realname := m.trailing }
   maybeLogin c sid m
 
 def cmdPass (c : Ctx) (sid : Id) (m : IrcMsg) : Res Ctx := do
